@@ -134,7 +134,8 @@ def analyse(unit, g, res):
         failures.append({
             'id': f"{unit}.{ctx}.{label}", 'kind': kind, 'message': msg, 'where': where,
             'gen_line': pl, 'gen_col': (prim[0].get('column_start', 1) if prim else 1), 'rendered': d.get('rendered', '')[:3000],
-            'hint': bool(kind == 'assert' and 1 <= pl <= len(origins) and origins[pl - 1].get('o') == 'tpl'),
+            # an UNLABELLED assert of the template text is a proof hint; a labelled one is a contract clause
+            'hint': bool(kind == 'assert' and label.startswith('assert@tpl:')),
         })
     fn_results = {}
     smt_ms = 0
